@@ -5,7 +5,7 @@ from monitors import token_class
 
 GEN = ["valid", "valid-odd", "bad-header-json", "bad-payload-json", "char-fault", "char-fault", "char-fault", "padding", "huge",
        "deep-nesting", "random-bytes", "random-alphabet", "binary-segments", "nul-inside", "segment-count", "alg-games",
-       "length-classes", "std-alphabet", "whitespace", "tiny"]
+       "length-classes", "std-alphabet", "whitespace", "tiny", "structured-signature"]
 
 
 def judge(path):
@@ -21,7 +21,7 @@ def judge(path):
                 continue
             if ev[0] == "STATS":
                 out["tokens"] += ev[1]; out["verifies"] += ev[2]; out["accepts"] += ev[3]; out["cb"] += ev[4]
-                for i, n in enumerate(ev[5:25]):
+                for i, n in enumerate(ev[5:26]):
                     c["gen." + GEN[i]] = c.get("gen." + GEN[i], 0) + n
             elif ev[0] == "T":
                 cls, mask, hx = ev[1], ev[2] & 0x3fffff, ev[3]
@@ -108,7 +108,7 @@ DICT = ["none", "HS256", "HS384", "HS512", "RS256", "ES256", "EdDSA", "PS256", "
 
 def run(tier, seed, replay):
     rep = vf.Report("C06", tier, seed)
-    rep.rule = ("grammar-derived near-valid tokens (20 generator classes: valid, malformed JSON, character faults, padding, huge/deep "
+    rep.rule = ("grammar-derived near-valid tokens (21 generator classes: valid, malformed JSON, character faults, padding, huge/deep "
                 "segments, random bytes, NUL inside, segment-count games, ...) and coverage-guided libFuzzer inputs, each shown to 22 "
                 "checkers (2 providers x {no key, HS256, RS256, PS256, ES256, ES384, ES512, ES256K, Ed25519, Ed448}) with a reading callback; evaluations = verify calls; "
                 "distinct = distinct (generator class, classifier reason, accepted?) tuples among logged tokens")
